@@ -28,8 +28,12 @@ def states(tier, seed):
         st.append(dict(part="stress", layout=lay, side=side, ny=ny, model=model, fam=fam))
     for N, model, pat, mag, yld, rho in itertools.product(range(1, 9), ["tube", "wingbox"], ["equal", "peak", "ladder", "zeros", "two_max"], [0.0, 1.0, 1e6, 1e9, 1e12], [1.0, 2e8], [10.0, 100.0]):
         st.append(dict(part="ks", N=N, model=model, pattern=pat, mag=mag, yld=yld, rho=rho, fam=fam))
-    for N, model in itertools.product([1, 3, 5], ["tube", "wingbox"]):
-        st.append(dict(part="exact", N=N, model=model, fam=fam))
+    # exact failure: also with an upper-skin strength factor != 1 (wingbox) and other allowables; the same stresses go through the
+    # KS aggregate, which must bracket the largest exact value
+    for N, model, tssf, yf in itertools.product([1, 3, 5], ["tube", "wingbox"], [1.0, 0.8, 1.25, 0.5], [1.0, 0.37]):
+        if model == "tube" and tssf != 1.0:
+            continue
+        st.append(dict(part="exact", N=N, model=model, tssf=tssf, yf=yf, fam=fam))
     return st, 0
 
 
@@ -232,20 +236,32 @@ def part_exact(s):
 
     ny = s["N"] + 1
     mesh = gen.rect_full(2, ny)
+    from openaerostruct.structures.failure_ks import FailureKS
+
     surf = builders.struct_surface("w", mesh, False, s["model"])
+    surf["yield"] = surf["yield"] * s.get("yf", 1.0)
+    if s["model"] == "wingbox":
+        surf["strength_factor_for_upper_skin"] = s.get("tssf", 1.0)
     ncrit = 2 if s["model"] == "tube" else 4
     p = om.Problem(reports=False)
     p.model.add_subsystem("k", FailureExact(surface=surf), promotes=["*"])
+    p.model.add_subsystem("ks", FailureKS(surface=surf, rho=100.0), promotes_inputs=["*"])
     p.setup()
     v = gen.gen((s["N"], ncrit), 3, 0.0, 5e8, s["fam"])
     p.set_val("vonmises", v)
     p.run_model()
     f = p["failure"]
     viol = []
+    # the stresses handed to the failure components are the (already strength-factor-weighted) von Mises values: allowable = yield
     want = v / surf["yield"] - 1
-    if not np.array_equal(np.asarray(f).reshape(want.shape), want):
-        viol.append(dict(sig=dict(oracle="failure_exact"), msg="exact failure is not vonmises/yield - 1 (max diff %.2e)" % np.abs(np.asarray(f).reshape(want.shape) - want).max(), measure=1.0))
-    val = 1
+    e = np.abs(np.asarray(f).reshape(want.shape) - want).max()
+    if not e <= 1e-13 * max(np.abs(want).max(), 1.0):
+        viol.append(dict(sig=dict(oracle="failure_exact", model=s["model"]), msg="exact failure is not vonmises/yield - 1 (max diff %.2e, upper-skin factor %s)" % (e, s.get("tssf", 1.0)), measure=1.0))
+    ks = float(p["ks.failure"][0])
+    fmax = float(np.max(f))
+    if not (fmax - 1e-12 * max(abs(fmax), 1.0) <= ks <= fmax + np.log(v.size) / 100.0 + 1e-12 * max(abs(fmax), 1.0)):
+        viol.append(dict(sig=dict(oracle="ks_brackets_exact", model=s["model"]), msg="KS aggregate %.6g of the same stresses is outside [max exact, max exact + ln(N)/rho] = [%.6g, %.6g] (upper-skin factor %s)" % (ks, fmax, fmax + np.log(v.size) / 100.0, s.get("tssf", 1.0)), measure=1.0))
+    val = 2
     if s["model"] == "tube":
         q = om.Problem(reports=False)
         q.model.add_subsystem("t", NonIntersectingThickness(surface=surf), promotes=["*"])
